@@ -54,7 +54,7 @@ ASSUMPTIONS = [
     'the index (first) column holds distinct LAS numbers; DATE.D / TIME.HHMMSS channels are outside the statement',
     "data cells 'NaN'/'inf' are not LAS numbers but Python reads them: either the IEEE value or the file's NULL is accepted "
     '(the differential oracle still requires all layouts to agree)',
-    'masking of null values in the frame array is not in the statement: the raw array data is compared',
+    'the raw array data is compared; of the mask only this is required: a cell that is a LAS number other than the file NULL is not masked (whether NULL cells are masked is not in the statement)',
     'the WRAP value itself (yes/no) is the one observation that depends on the layout and is excluded from the differential oracle',
     "header values spelled like Python-only numbers ('1_000', 'Infinity', 'nan') are not generated",
     'when a curve mnemonic is read back as a number/bool equal to another channel index, FrameArray stores data in the wrong '
@@ -153,6 +153,8 @@ def shards(tier):
             for first in firsts:
                 out.append({'fam': 'cells', 'ncur': ncur, 'nfr': nfr, 'null': null, 'first': first})
     out.append({'fam': 'index'})
+    for nfr in (1, 2, 3):
+        out.append({'fam': 'nullzero', 'nfr': nfr})
     for ncur in (1, 2, 3):
         out.append({'fam': 'tail', 'ncur': ncur})
     for lead, predot, precolon in itertools.product((0, 1, 7), (0, 1, 7), (1, 0, 7)):
@@ -228,7 +230,9 @@ def observe(text, content):
             obs[('A', c, 'ident')] = L.tag(ch.ident)
             obs[('A', c, 'units')] = L.tag(ch.units)
             arr = np.ma.getdata(ch.array)
+            mask = np.ma.getmaskarray(ch.array)
             for f in range(len(arr)):
+                obs[('A', c, f, 'masked')] = repr(bool(np.asarray(mask[f]).any()))
                 cell = np.asarray(arr[f]).reshape(-1)
                 if cell.size == 1 and isinstance(cell[0].item(), float):
                     obs[('A', c, f)] = repr(float(cell[0]))
@@ -343,6 +347,12 @@ def evaluate(content, layout, text=None):
                 obs[key] = 'misassigned'
         for key in sorted(set(exp) | set(obs), key=repr):
             want, got = exp.get(key), obs.get(key)
+            if len(key) == 4 and key[3] == 'masked':
+                if want is not None and got is not None and got not in want:
+                    cell = content['frames'][key[2]][key[1]]
+                    devs[key] = ({'kind': 'data_value_masked'}, 'frame %d channel %d: the data value %r is masked in the channel array (file NULL %s)'
+                                 % (key[2], key[1], cell, content['null']))
+                continue        # whether NULL cells are masked is not in the statement
             if want is None or got is None:
                 devs[key] = ({'kind': 'shape_mismatch', 'what': 'missing' if got is None else 'extra'},
                              '%r: expected %r, reader has %r' % (key, want, got))
@@ -533,6 +543,17 @@ def run_shard(shard, tier):
                 for vers in ('2.0', '1.2'):
                     content = shape_content(vers=vers, null='-999.25', ncur=ncur, nfr=nfr, nextra=0, nparam=None, index=style)
                     r.run(content, data_layouts(content, tier, tier != 'quick'))
+    elif fam == 'nullzero':
+        # a file whose NULL is 0: the default absent value -999.25 is then an ordinary reading
+        nfr = shard['nfr']
+        lays = None
+        for cells in itertools.product(['-999.25', L.CELL_NULL, '1.5', 'abc', '0.0'], repeat=nfr):
+            for ncur in (2, 3):
+                content = shape_content(null='0', ncur=ncur, nfr=nfr, nextra=0, nparam=None,
+                                        cells=[cells[f] if c == 0 else ['-999.25', '7', '0'][f] for f in range(nfr) for c in range(ncur - 1)])
+                if lays is None or ncur == 3:
+                    lays = data_layouts(content, tier, False)
+                r.run(content, lays)
     elif fam == 'tail':
         # the end of the text: lines of one or two characters, with and without the final newline, wrapped or not
         ncur = shard['ncur']
